@@ -33,8 +33,12 @@ def make_resolver_class(table):
     return SimResolver
 
 
-def run_app(argv, table, before_run=None, log_path=None):
-    '''Returns dict(exit_status, crashed(bool), log_text).'''
+def run_app(argv, table, before_run=None, log_path=None, stall_watch=None):
+    '''Returns dict(exit_status, crashed(bool), log_text).
+
+    stall_watch = (progress function, seconds): a crawl that shows no progress (the function's value does not change) for
+    that long is taken to hang; the state of its connection pool is recorded as the witness (a client waiting while every
+    slot of its host is checked out by nobody is a deterministic deadlock, not a matter of timing) and the crawl is cancelled.'''
     from wpull.application.options import AppArgumentParser
     from wpull.application.builder import Builder
     loop = asyncio.new_event_loop()
@@ -54,6 +58,29 @@ def run_app(argv, table, before_run=None, log_path=None):
         app = builder.build()
         if before_run:
             before_run(app, builder)
+        if stall_watch:
+            progress, seconds = stall_watch
+            state = {'value': None, 'since': loop.time()}
+
+            def watch():
+                v = progress()
+                now = loop.time()
+                if v != state['value']:
+                    state['value'], state['since'] = v, now
+                elif now - state['since'] > seconds:
+                    result['stalled'] = True
+                    try:
+                        pool = builder.factory['ConnectionPool']
+                        result['pool_state'] = {str(k): {'ready': len(hp.ready), 'busy': len(hp.busy), 'max': hp.max_connections,
+                                                         'waiters': pool._host_pool_waiters.get(k, 0)}
+                                                for k, hp in pool.host_pools.items()}
+                    except Exception as e:
+                        result['pool_state'] = repr(e)
+                    for t in asyncio.all_tasks(loop):
+                        t.cancel()
+                    return
+                loop.call_later(0.5, watch)
+            loop.call_later(0.5, watch)
         try:
             result['exit_status'] = app.run_sync()
         except BaseException as e:  # noqa
